@@ -432,6 +432,7 @@ func checkC04(w *World, r *Report) {
 	rulePopMode(w, r, "C04", fi)
 	ruleFlushWrites(w, r, "C04")
 	ruleRenderSize(w, r, "C04")
+	ruleTermSize(w, r, "C04")
 	ruleRowsAreLines(w, r, "C04")
 	ruleFormatExchange(w, r, "C04")
 	ruleDecorWidthAccounting(w, r, "C04")
